@@ -165,6 +165,61 @@ def trace_bug(dims, seed=0, reuse=False, kind="analog", dt=0.1):
     return ev, p, L
 
 
+def trace_single_site(L, kind="analog", seed=0, dt=0.1, via_dynamic=False):
+    """single_site_tdvp (or local_dynamic_tdvp on a one-site chain) with recording kernels: ("S", site, half steps) / ("B", bond, half steps)"""
+    import mqt.yaqs.core.methods.tdvp as T
+    from mqt.yaqs.core.data_structures.networks import MPO, MPS
+    from mqt.yaqs.core.data_structures.simulation_parameters import AnalogSimParams, Observable, StrongSimParams
+
+    rng = np.random.default_rng(seed)
+    dims = [int(min(rng.choice([1, 2, 3]), 2 ** min(i + 1, L - 1 - i))) for i in range(L - 1)]
+    tens = []
+    for i in range(L):
+        lft = 1 if i == 0 else dims[i - 1]
+        r = 1 if i == L - 1 else dims[i]
+        tens.append(rng.normal(size=(2, lft, r)) + 1j * rng.normal(size=(2, lft, r)))
+    st = MPS(L, tensors=tens, physical_dimensions=[2] * L)
+    if kind == "analog":
+        p = AnalogSimParams([Observable("z", 0)], elapsed_time=dt, dt=dt, max_bond_dim=8, threshold=1e-12, show_progress=False)
+        unit = dt
+    else:
+        p = StrongSimParams([Observable("z", 0)], num_traj=1, max_bond_dim=8, threshold=1e-12, show_progress=False)
+        unit = 1.0
+    H = MPO.ising(L, 1.0, 0.5)
+    ev, pending = [], []
+    saved = (T.update_site, T.update_bond)
+
+    def half(x):
+        h = 2 * x / unit
+        return int(round(h)) if abs(h - round(h)) < 1e-9 else float(h)
+
+    def upd_site(left, right, op, tensor, step, *xa, **xk):
+        k = [i for i, w in enumerate(H.tensors) if w is op]
+        site = k[0] if len(k) == 1 else None
+        for b in pending:   # bond updates of the right-to-left half belong to the bond left of the previous site = this site
+            ev[b] = ("B", site, ev[b][2])
+        pending.clear()
+        ev.append(("S", site, half(step)))
+        return tensor
+
+    def upd_bond(left, right, bond, step, *xa, **xk):
+        last = [e for e in ev if e[0] == "S"]
+        full_seen = any(e[0] == "S" and e[1] == L - 1 for e in ev)
+        if full_seen:
+            pending.append(len(ev))
+            ev.append(("B", None, half(-step)))
+        else:
+            ev.append(("B", last[-1][1] if last else None, half(-step)))
+        return bond
+
+    T.update_site, T.update_bond = upd_site, upd_bond
+    try:
+        (T.local_dynamic_tdvp if via_dynamic else T.single_site_tdvp)(st, H, p)
+    finally:
+        T.update_site, T.update_bond = saved
+    return ev
+
+
 def split_halves(steps, L):
     """The forward half ends after the step that touches site L-1 for the first time in forward direction; the real loop structure
     makes the split unambiguous: the first half contains exactly one positive update covering site L-1."""
@@ -202,6 +257,7 @@ def to_model_steps(v, L):
 def correspond(ctx):
     ctx.rules.append(RULE)
     correspond_bug(ctx)
+    correspond_single_site(ctx)
     cases, exprs, impl = [], [], []
     for k in range(ctx.scale(120, 2500)):
         L = int(ctx.rng.integers(2, 9))
@@ -273,6 +329,27 @@ def correspond_bug(ctx):
         tr = [e for e in ev if e[0] == "T"]
         if tr and (tr[0][1], tr[0][2]) != tuple(c["limits"]):
             ctx.mismatch("bug.bug closing truncation vs the run's (threshold, max_bond_dim)", c, tr[0], list(c["limits"]), key="bug-trunc")
+
+
+def correspond_single_site(ctx):
+    """single_site_tdvp with recording kernels (also reached through local_dynamic_tdvp on a one-site chain) vs Model/SingleSite"""
+    cases, exprs = [], []
+    for k in range(ctx.scale(30, 300)):
+        L = 1 if k % 3 == 0 else int(ctx.rng.integers(1, 7))
+        kind = "analog" if k % 4 else "strong"
+        via = bool(L == 1 and k % 2 == 0)
+        dt = float(ctx.rng.choice([0.1, 0.05, 0.3]))
+        cases.append(dict(L=L, kind=kind, dt=dt, via_local_dynamic_tdvp=via, events=trace_single_site(L, kind=kind, seed=k, dt=dt, via_dynamic=via)))
+        exprs.append(f"ss_{'analog' if kind == 'analog' else 'circuit'} {L}")
+    vals = common.coq_eval_sharded("From Coq Require Import List. Import ListNotations.\nFrom Yaqs Require Import Model.SingleSite.", exprs, tag="c05s")
+    for c, v in zip(cases, vals):
+        ev = c.pop("events")
+        model = [("S" if a[0] == "SSite" else "B", a[1], a[2]) for a in v]
+        ctx.case(nontrivial_key=("single-site", c["L"], c["kind"], c["via_local_dynamic_tdvp"]), validated=True,
+                 sample={**c, "events": ev} if c["L"] in (1, 3) and len(ctx.samples) < 6 else None)
+        ctx.count("single_site_one_site_chain" if c["L"] == 1 else "single_site_chain")
+        if [tuple(e) for e in ev] != model:
+            ctx.mismatch("single_site_tdvp step list (site / bond, duration in half steps) vs SingleSite.ss_analog / ss_circuit", c, ev, model, key="single-site")
 
 
 # ---- real runs ------------------------------------------------------------------------------------------------------
@@ -371,6 +448,11 @@ def search(ctx):
         plan.append(dict(seed=int(ctx.rng.integers(0, 2**31)), L=int(ctx.rng.integers(2, 5 if ctx.quick else 6)), ham=["ising", "heisenberg", "pauli"][k % 3],
                          state=states[k % len(states)], mode="TDVP" if k % 4 else "BUG", order=1 + k % 2, compare_orders=(k % 5 == 0),
                          reuse=(k % 3 == 2 and k % 4 != 0)))
+    # one-site chains: the dynamic sweep hands them to the one-site integrator
+    for k in range(ctx.scale(3, 12)):
+        plan.append(dict(seed=int(ctx.rng.integers(0, 2**31)), L=1, ham=["pauli", "ising"][k % 2], state=["zeros", "y+", "x+"][k % 3],
+                         mode="TDVP" if k % 3 else "BUG", order=1 + k % 2, T=1.0))
+        ctx.count("one_site_chains")
     # wide and long enough for the middle bonds to pass dimension 8: the local Krylov steps then leave the small dense path
     for k in range(ctx.scale(1, 4)):
         plan.append(dict(seed=int(ctx.rng.integers(0, 2**31)), L=8, ham="pauli", state=["Neel", "x+"][k % 2], mode="TDVP", order=1 + k % 2, T=1.2, wide=True))
